@@ -103,7 +103,18 @@ func VerifC19_SecretPropagation() {
 		fs = append(fs, f)
 		cfg.Chains = append(cfg.Chains, &configv1.FilterChain{Name: n, Filters: []*configv1.Filter{{Type: &configv1.Filter_Oidc{Oidc: f.cfg}}}})
 	}
-	api := &symK8s{kind: int(vn.Int("api-answer", 0, 2)), deleting: vn.Bool("secret-deleting"), hasKey: vn.Bool("secret-has-key"), value: vn.StringIn("secret-value", 2, alphaLower), deletedAt: vn.Time("deleted-at")}
+	// a Secret is "being deleted" from the moment its deletionTimestamp is set, whatever that
+	// instant is compared with the service's own clock (graceful deletion and clock skew put it in
+	// the future): the timestamp is the local clock plus an arbitrary offset of either sign
+	var now time.Time
+	if vn.Symbolic() {
+		now = vn.Time("now")
+		vn.SetNow(now)
+	} else {
+		now = time.Now()
+	}
+	deletedAt := now.Add(time.Duration(vn.Int("deleted-at-offset-s", -1000000000, 1000000000)) * time.Second)
+	api := &symK8s{kind: int(vn.Int("api-answer", 0, 2)), deleting: vn.Bool("secret-deleting"), hasKey: vn.Bool("secret-has-key"), value: vn.StringIn("secret-value", 2, alphaLower), deletedAt: deletedAt}
 	s := &SecretController{log: internal.Logger(internal.Config), config: cfg, namespace: ownNS, k8sClient: api}
 	err := s.loadSecrets()
 	vn.Cover("C19/cross-namespace-refused", vn.And(foreign, err != nil))
